@@ -233,6 +233,7 @@ CleanReset(e, pre) ==
   LET s == e.post  inb == PreInbox(pre, e.post.h) IN
     /\ s.h = e.ledger.height + 1 /\ s.n = e.ledger.nvals /\ s.vals = e.ledger.vals /\ s.me = e.ledger.myIndex
     /\ s.prev = e.ledger.tip /\ s.lbTs = e.arg.ts
+    /\ ~s.sub                    \* no transaction subscription of an earlier height is carried over
     /\ s.primary = (s.h - s.v) % s.n
     /\ Len(s.prep) = s.n /\ Len(s.cm) = s.n /\ Len(s.pc) = s.n /\ Len(s.cv) = s.n /\ Len(s.lastcv) = s.n /\ Len(s.seen) = s.n
     /\ \A x \in Range(s.cache) : x.h > s.h \/ (x.h = s.h /\ \A p \in Range(x.prepare) \cup Range(x.chViews) \cup Range(x.preCommit) \cup Range(x.commit) : p.v > 0)
